@@ -5,7 +5,7 @@ LEVEL = "model_checking"
 def run(ctx):
     for fam in ['set']:
         sqlprop.laws(ctx, f"SqlLaws_{fam}_{ctx.tier}.cfg")
-    sqlprop.run_sql_property(ctx, corpus=['setop', 'setop3'], seeded=[('single', {'setops': True, 'setop_p': 0.8, 'null_p': 0.3, 'dom': 2})], quick_n=300, seeded_quick=250,
+    sqlprop.run_sql_property(ctx, corpus=['setop', 'setop3', 'unionjoin'], seeded=[('single', {'setops': True, 'setop_p': 0.8, 'null_p': 0.3, 'dom': 2})], quick_n=300, seeded_quick=250,
         rule='UNION/INTERSECT/EXCEPT with and without ALL over inputs with duplicates and NULLs, with ORDER BY on top; TLC checks the multiset identities over all pairs of bags.')
 
 def replay(ctx, obj):
